@@ -128,7 +128,9 @@ struct Runner {
     struct Slot { Enc from, to; Mode mode; bool flag, verbatim; uint64_t hs, hp, hq; size_t ns; ref::Expect e; };
     std::vector<std::unique_ptr<Slot>> cache;
     static const Units &none() { static const Units e; return e; }
-    unsigned next() { return st++; }
+    // pre-state / left-operand choice of a call site: depends on the case (sel) and the call site only, not on which groups ran before it,
+    // so that a failure found with one group selected reproduces when all groups run
+    unsigned at(unsigned line) const { return st + line; }
     bool wants(int m) const { return (mode_mask >> m) & 1; }
     const ref::Expect &expect_for(const Call &c) {
         const uint64_t hs = units_hash(*c.src), hp = units_hash(*c.pre), hq = units_hash(*c.post);
@@ -137,7 +139,13 @@ struct Runner {
         cache.emplace_back(new Slot{c.from, c.to, c.mode, c.l1flag, c.verbatim, hs, hp, hq, c.src->size(), expectation(c)});
         return cache.back()->e;
     }
-    template <class F> bool call(const char *name, Enc from, Enc to, Mode mode, bool flag, bool verbatim, const Units &src, const Units &pre, const Units &post, F &&f) {
+    // type-erased reference to the lambda that performs the library call (keeps this function out of the per-call template instantiations)
+    struct FnRef {
+        void *obj; void (*fn)(void *, Outcome &);
+        template <class F> FnRef(F &f) : obj(&f), fn([](void *o, Outcome &out) { (*static_cast<F *>(o))(out); }) {}
+        void operator()(Outcome &out) const { fn(obj, out); }
+    };
+    bool call(const char *name, Enc from, Enc to, Mode mode, bool flag, bool verbatim, const Units &src, const Units &pre, const Units &post, FnRef f) {
         Call c{name, from, to, mode, flag, verbatim, &src, &pre, &post, nullptr, Outcome()};
         c.e = &expect_for(c);
         c.o.out.reserve(c.e->out.size() + 8);      // the capture helpers clear() and push_back(): no regrowth while reading the result
@@ -156,12 +164,12 @@ struct Runner {
 
 // expression returning something capture() understands
 #define XC_(name, to, mode, flag, verb, srcU, pre, post, ...) \
-    do { if (!R.call(name, FROM, to, mode, flag, verb, srcU, pre, post, [&](Outcome &o__) { capture(__VA_ARGS__, o__); })) return R.fail; } while (0)
+    do { auto f__ = [&](Outcome &o__) { capture(__VA_ARGS__, o__); }; if (!R.call(name, FROM, to, mode, flag, verb, srcU, pre, post, Runner::FnRef(f__))) return R.fail; } while (0)
 #define XC(name, to, mode, srcU, ...) XC_(name, to, mode, true, false, srcU, NONE, NONE, __VA_ARGS__)
 #define XVERB(name, to, srcU, ...) XC_(name, to, ref::ASSUME_VALID, true, true, srcU, NONE, NONE, __VA_ARGS__)
 // statement block working on a prepared target `t` of the given type
-#define XSET(name, mode, srcU, ...) XC(name, ref::UTF8, mode, srcU, [&] { ST::string t; prep(t, R.next()); __VA_ARGS__; return t; }())
-#define XSETV(name, srcU, ...) XVERB(name, ref::UTF8, srcU, [&] { ST::string t; prep(t, R.next()); __VA_ARGS__; return t; }())
+#define XSET(name, mode, srcU, ...) XC(name, ref::UTF8, mode, srcU, [&] { ST::string t; prep(t, R.at(__LINE__)); __VA_ARGS__; return t; }())
+#define XSETV(name, srcU, ...) XVERB(name, ref::UTF8, srcU, [&] { ST::string t; prep(t, R.at(__LINE__)); __VA_ARGS__; return t; }())
 
 // left operands for operator+ : short, one below / at the small-string limit, heap
 inline const ST::string &left_operand(unsigned sel, Units &units) {
@@ -274,7 +282,7 @@ inline std::string ext_utf8(const Units &src, const Params &p, const Judge &judg
             XSET("set(const char*,ST_AUTO_SIZE,mode)", M, seen, t.set(Z, ST_AUTO_SIZE, v));
             XSET("set(const char8_t*,ST_AUTO_SIZE,mode)", M, seen, t.set(Z8, ST_AUTO_SIZE, v));
         }
-        Units LU; const ST::string &L = left_operand(R.next(), LU);
+        Units LU; const ST::string &L = left_operand(R.at(__LINE__), LU);
         XC_("operator+(ST::string,const char*)", ref::UTF8, DM, true, false, seen, LU, NONE, L + Z);
         XC_("operator+(const char*,ST::string)", ref::UTF8, DM, true, false, seen, NONE, LU, Z + L);
         XC_("operator+(ST::string,const char8_t*)", ref::UTF8, DM, true, false, seen, LU, NONE, L + Z8);
@@ -335,23 +343,23 @@ inline std::string ext_utf8(const Units &src, const Params &p, const Judge &judg
     XVERB("data()", ref::UTF8, src, CStrView{str.data(), str.size()});
     XVERB("u8_str()", ref::UTF8, src, CStrView{reinterpret_cast<const char *>(str.u8_str()), str.size()});
     XVERB("begin()..end()", ref::UTF8, src, std::string(str.begin(), str.end()));
-    XVERB("to_buffer(char_buffer&)", ref::UTF8, src, [&] { ST::char_buffer b; prep(b, R.next()); str.to_buffer(b); return b; }());
-    XVERB("to_buffer(char_buffer&,true)", ref::UTF8, src, [&] { ST::char_buffer b; prep(b, R.next()); str.to_buffer(b, true); return b; }());
-    XVERB("to_std_string(std::string&)", ref::UTF8, src, [&] { std::string r; prep(r, R.next()); str.to_std_string(r); return r; }());
-    XVERB("to_std_string(std::string&,true,false)", ref::UTF8, src, [&] { std::string r; prep(r, R.next()); str.to_std_string(r, true, false); return r; }());
-    XVERB("to_std_string(std::u8string&)", ref::UTF8, src, [&] { std::u8string r; prep(r, R.next()); str.to_std_string(r); return r; }());
+    XVERB("to_buffer(char_buffer&)", ref::UTF8, src, [&] { ST::char_buffer b; prep(b, R.at(__LINE__)); str.to_buffer(b); return b; }());
+    XVERB("to_buffer(char_buffer&,true)", ref::UTF8, src, [&] { ST::char_buffer b; prep(b, R.at(__LINE__)); str.to_buffer(b, true); return b; }());
+    XVERB("to_std_string(std::string&)", ref::UTF8, src, [&] { std::string r; prep(r, R.at(__LINE__)); str.to_std_string(r); return r; }());
+    XVERB("to_std_string(std::string&,true,false)", ref::UTF8, src, [&] { std::string r; prep(r, R.at(__LINE__)); str.to_std_string(r, true, false); return r; }());
+    XVERB("to_std_string(std::u8string&)", ref::UTF8, src, [&] { std::u8string r; prep(r, R.at(__LINE__)); str.to_std_string(r); return r; }());
     XC("to_utf16()", ref::UTF16, AV, src, str.to_utf16());
     XC("to_utf32()", ref::UTF32, AV, src, str.to_utf32());
     XC("to_wchar()", ref::UTF32, AV, src, str.to_wchar());
-    XC("to_buffer(utf16_buffer&)", ref::UTF16, AV, src, [&] { ST::utf16_buffer b; prep(b, R.next()); str.to_buffer(b); return b; }());
-    XC("to_buffer(utf32_buffer&)", ref::UTF32, AV, src, [&] { ST::utf32_buffer b; prep(b, R.next()); str.to_buffer(b); return b; }());
-    XC("to_buffer(wchar_buffer&)", ref::UTF32, AV, src, [&] { ST::wchar_buffer b; prep(b, R.next()); str.to_buffer(b); return b; }());
+    XC("to_buffer(utf16_buffer&)", ref::UTF16, AV, src, [&] { ST::utf16_buffer b; prep(b, R.at(__LINE__)); str.to_buffer(b); return b; }());
+    XC("to_buffer(utf32_buffer&)", ref::UTF32, AV, src, [&] { ST::utf32_buffer b; prep(b, R.at(__LINE__)); str.to_buffer(b); return b; }());
+    XC("to_buffer(wchar_buffer&)", ref::UTF32, AV, src, [&] { ST::wchar_buffer b; prep(b, R.at(__LINE__)); str.to_buffer(b); return b; }());
     XC("to_std_u16string()", ref::UTF16, AV, src, str.to_std_u16string());
     XC("to_std_u32string()", ref::UTF32, AV, src, str.to_std_u32string());
     XC("to_std_wstring()", ref::UTF32, AV, src, str.to_std_wstring());
-    XC("to_std_string(std::u16string&)", ref::UTF16, AV, src, [&] { std::u16string r; prep(r, R.next()); str.to_std_string(r); return r; }());
-    XC("to_std_string(std::u32string&)", ref::UTF32, AV, src, [&] { std::u32string r; prep(r, R.next()); str.to_std_string(r); return r; }());
-    XC("to_std_string(std::wstring&)", ref::UTF32, AV, src, [&] { std::wstring r; prep(r, R.next()); str.to_std_string(r); return r; }());
+    XC("to_std_string(std::u16string&)", ref::UTF16, AV, src, [&] { std::u16string r; prep(r, R.at(__LINE__)); str.to_std_string(r); return r; }());
+    XC("to_std_string(std::u32string&)", ref::UTF32, AV, src, [&] { std::u32string r; prep(r, R.at(__LINE__)); str.to_std_string(r); return r; }());
+    XC("to_std_string(std::wstring&)", ref::UTF32, AV, src, [&] { std::wstring r; prep(r, R.at(__LINE__)); str.to_std_string(r); return r; }());
     XC("to_utf16() then utf16_buffer::view()", ref::UTF16, AV, src, [&] { const ST::utf16_buffer b = str.to_utf16(); return std::u16string(b.view()); }());
     XC("to_utf32() then utf32_buffer::view()", ref::UTF32, AV, src, [&] { const ST::utf32_buffer b = str.to_utf32(); return std::u32string(b.view()); }());
     XC("to_wchar() then wchar_buffer::view()", ref::UTF32, AV, src, [&] { const ST::wchar_buffer b = str.to_wchar(); return std::wstring(b.view()); }());
@@ -360,21 +368,21 @@ inline std::string ext_utf8(const Units &src, const Params &p, const Judge &judg
     for (int fl = 0; fl < 2; fl++) {
         const bool F = fl == 0;
         XC_("to_latin_1(bool)", ref::LATIN1, AV, F, false, src, NONE, NONE, str.to_latin_1(F));
-        XC_("to_buffer(char_buffer&,false,bool)", ref::LATIN1, AV, F, false, src, NONE, NONE, [&] { ST::char_buffer b; prep(b, R.next()); str.to_buffer(b, false, F); return b; }());
+        XC_("to_buffer(char_buffer&,false,bool)", ref::LATIN1, AV, F, false, src, NONE, NONE, [&] { ST::char_buffer b; prep(b, R.at(__LINE__)); str.to_buffer(b, false, F); return b; }());
         XC_("to_std_string(false,bool)", ref::LATIN1, AV, F, false, src, NONE, NONE, str.to_std_string(false, F));
-        XC_("to_std_string(std::string&,false,bool)", ref::LATIN1, AV, F, false, src, NONE, NONE, [&] { std::string r; prep(r, R.next()); str.to_std_string(r, false, F); return r; }());
+        XC_("to_std_string(std::string&,false,bool)", ref::LATIN1, AV, F, false, src, NONE, NONE, [&] { std::string r; prep(r, R.at(__LINE__)); str.to_std_string(r, false, F); return r; }());
     }
     XC("to_latin_1()", ref::LATIN1, AV, src, str.to_latin_1());
     XC("to_std_string(false)", ref::LATIN1, AV, src, str.to_std_string(false));
     for (int m = 0; m < 3; m++) {     // deprecated overloads: substitute_invalid stands for substitute_out_of_range = true, the other modes for false
         const Mode M = (Mode)m; const ST::utf_validation_t v = conv::st_mode(M); const bool F = (M == ref::SUBSTITUTE);
         XC_("to_latin_1(utf_validation_t)", ref::LATIN1, AV, F, false, src, NONE, NONE, str.to_latin_1(v));
-        XC_("to_buffer(char_buffer&,false,utf_validation_t)", ref::LATIN1, AV, F, false, src, NONE, NONE, [&] { ST::char_buffer b; prep(b, R.next()); str.to_buffer(b, false, v); return b; }());
+        XC_("to_buffer(char_buffer&,false,utf_validation_t)", ref::LATIN1, AV, F, false, src, NONE, NONE, [&] { ST::char_buffer b; prep(b, R.at(__LINE__)); str.to_buffer(b, false, v); return b; }());
         XC_("to_std_string(false,utf_validation_t)", ref::LATIN1, AV, F, false, src, NONE, NONE, str.to_std_string(false, v));
-        XC_("to_std_string(std::string&,false,utf_validation_t)", ref::LATIN1, AV, F, false, src, NONE, NONE, [&] { std::string r; prep(r, R.next()); str.to_std_string(r, false, v); return r; }());
-        XVERB("to_buffer(char_buffer&,true,utf_validation_t)", ref::UTF8, src, [&] { ST::char_buffer b; prep(b, R.next()); str.to_buffer(b, true, v); return b; }());
+        XC_("to_std_string(std::string&,false,utf_validation_t)", ref::LATIN1, AV, F, false, src, NONE, NONE, [&] { std::string r; prep(r, R.at(__LINE__)); str.to_std_string(r, false, v); return r; }());
+        XVERB("to_buffer(char_buffer&,true,utf_validation_t)", ref::UTF8, src, [&] { ST::char_buffer b; prep(b, R.at(__LINE__)); str.to_buffer(b, true, v); return b; }());
         XVERB("to_std_string(true,utf_validation_t)", ref::UTF8, src, str.to_std_string(true, v));
-        XVERB("to_std_string(std::string&,true,utf_validation_t)", ref::UTF8, src, [&] { std::string r; prep(r, R.next()); str.to_std_string(r, true, v); return r; }());
+        XVERB("to_std_string(std::string&,true,utf_validation_t)", ref::UTF8, src, [&] { std::string r; prep(r, R.at(__LINE__)); str.to_std_string(r, true, v); return r; }());
     }
     if (ref::well_formed(ref::UTF8, src)) {
         XVERB("to_path()", ref::UTF8, src, str.to_path());
@@ -560,7 +568,7 @@ template <class T> inline std::string ext_wide(const Units &src, const Params &p
             XC("from_utf16/32/wchar(const T*,ST_AUTO_SIZE,mode)", ref::UTF8, M, seen, W::from_c(Z, v));
             XSET("set(const T*,ST_AUTO_SIZE,mode)", M, seen, t.set(Z, ST_AUTO_SIZE, v));
         }
-        Units LU; const ST::string &L = left_operand(R.next(), LU);
+        Units LU; const ST::string &L = left_operand(R.at(__LINE__), LU);
         XC_("operator+(ST::string,const T*)", ref::UTF8, DM, true, false, seen, LU, NONE, L + Z);
         XC_("operator+(const T*,ST::string)", ref::UTF8, DM, true, false, seen, NONE, LU, Z + L);
         XC_("operator+=(const T*)", ref::UTF8, DM, true, false, seen, LU, NONE, [&] { ST::string t(L); t += Z; return t; }());
@@ -569,7 +577,7 @@ template <class T> inline std::string ext_wide(const Units &src, const Params &p
     // single characters on either side: the character is one UTF-32 value whatever its type (operator+ always validates)
     {
         const Enc FROM = ref::UTF32;
-        Units LU; const ST::string &L = left_operand(R.next(), LU);
+        Units LU; const ST::string &L = left_operand(R.at(__LINE__), LU);
         const size_t nch = N < 6 ? N : 6;
         for (size_t i = 0; i < nch; i++) {
             const size_t at = (i < 3) ? i : N - (nch - i);          // first three and last three units
@@ -605,7 +613,7 @@ inline std::string ext_latin1(const Units &src, const Params &p, const Judge &ju
     }
     if (p.groups & (G_CHARS | G_OUT_L1 | G_VERBATIM))
     {   // a char appended or prepended is the Latin-1 character of that value
-        Units LU; const ST::string &L = left_operand(R.next(), LU);
+        Units LU; const ST::string &L = left_operand(R.at(__LINE__), LU);
         const size_t nch = N < 6 ? N : 6;
         for (size_t i = 0; i < nch; i++) {
             const size_t at = (i < 3) ? i : N - (nch - i);
